@@ -523,7 +523,11 @@ func (c *c13) Run(cs core.Case) core.Result {
 				for o := hr[0]; o < hr[1]; o++ {
 					for bit := 0; bit < 8; bit++ {
 						n++
-						if n%stride != 0 {
+						// fields that no checksum covers are never sampled: the
+						// PAR2 length field (bytes 8..15 of a packet header) and the
+						// PAR1 fields before the control-hash range (bytes 0..31)
+						unprotected := (p.Fmt == "par2" && isArchive(rel) && o-hr[0] >= 8 && o-hr[0] < 16) || (p.Fmt == "par1" && isArchive(rel) && o < 32)
+						if n%stride != 0 && !unprotected {
 							continue
 						}
 						h.restore()
